@@ -45,10 +45,13 @@ MODELS = {
     "plain-can": ("jpsi-f0", "canonical-helicity", False, False, None),
     "stable-plain-can": ("jpsi-f0", "canonical-helicity", False, True, None),
     "dpd-stable-dyn-can": ("jpsi-ksp", "canonical-helicity", True, True, 1),
+    # an incomplete helicity set: two of the four amplitudes the intensity sums over are defined as zero (no free symbols)
+    "zeroamp-hel": ("etac-ll", "helicity", False, False, None),
 }
 REACTIONS = {
     "jpsi-f0": dict(initial_state=[("J/psi(1S)", [-1, 1])], final_state=["gamma", "pi0", "pi0"],
                     allowed_intermediate_particles=["f(0)(980)"], allowed_interaction_types="strong"),
+    "etac-ll": dict(initial_state="eta(c)(1S)", final_state=["Lambda", "Lambda~"], allowed_interaction_types="strong"),
     "jpsi-ksp": dict(initial_state=[("J/psi(1S)", [-1, 1])], final_state=["K0", "Sigma+", "p~"],
                      allowed_intermediate_particles=["Sigma(1660)~-"], allowed_interaction_types=["strong"]),
 }
@@ -459,8 +462,11 @@ def numerically_equal(got, exp, seed: int, npoints: int = 5, tol: float = 1e-10)
     with warnings.catch_warnings():
         warnings.simplefilter("ignore")
         for e in (got, exp):
-            f = sp.lambdify([*a1, *s1], e.doit(), "numpy", cse=True, dummify=True)
-            ys.append(np.asarray(f(*[vals[x] for x in [*a1, *s1]]), dtype=complex) * np.ones(npoints))
+            try:
+                f = sp.lambdify([*a1, *s1], e.doit(), "numpy", cse=True, dummify=True)
+                ys.append(np.asarray(f(*[vals[x] for x in [*a1, *s1]]), dtype=complex) * np.ones(npoints))
+            except Exception:  # noqa: BLE001  (e.g. an amplitude symbol without definition: the structural mismatch stands)
+                return False
     fin = np.isfinite(ys[0]) & np.isfinite(ys[1])
     if not np.array_equal(np.isfinite(ys[0]), np.isfinite(ys[1])) or not fin.any():
         return False
